@@ -24,7 +24,7 @@ pub struct P {
 fn setup(codec: CodecKind, rng_seed: u64) -> Setup {
     let mut cfg = Config::simple();
     cfg.max_packet_size = std::num::NonZeroUsize::new(1400).unwrap();
-    Setup { id: OWN, cfg, codec, policy: Policy::never(), hcfg: HandlerCfg::default_cfg(), rng_seed }
+    Setup { id: OWN, cfg, codec, policy: Policy::never(), hcfg: HandlerCfg::default_cfg(), rng_seed, acc_twin: false }
 }
 
 fn gen_update(s: &mut Stream, addrs: u16, gens: u32) -> Member<SimId> {
